@@ -699,9 +699,15 @@ class FunctionCheck:
                 if v1.get("__pre_violated__") or v2.get("__pre_violated__"):
                     continue
                 keys = [k for k in v1 if not k.startswith("__")]
-                if trial >= 2 and keys:
+                if trial >= 2 and keys and self.sc.post_native is None:
+                    # (scenarios that derive some native inputs from others keep whole, consistent inputs)
                     k = keys[(trial - 2) % len(keys)]
                     v2 = dict(cp_(v1), **{k: v2[k]})  # differs from the first input in one key only
+                    try:
+                        if not np.all(self.sc.pre_ok_native(v2)):
+                            continue  # the precondition relates the keys: the mixed input is outside the contract
+                    except Exception:
+                        continue
                 exp_fresh = None
                 if self.spec is None or gstate.slots:
                     gstate.restore()
@@ -713,25 +719,38 @@ class FunctionCheck:
                 fn, args, kwargs = self.sc.build(va)
                 with np.errstate(all="ignore"), patched_rng([va[m] for m in self.rng_inputs], unit=getattr(self, "rng_unit", False)):
                     fn(*args, **kwargs)
-                vmix = {k: (v2[k] if isinstance(v1[k], np.ndarray) else v1[k]) for k in v1}
-                fn2, args2, kwargs2 = self.sc.build(cp_(vmix))
+                # only inputs that reach the call as top-level array arguments (same object) are refilled; whatever the scenario's object
+                # holds from its construction (tables, contract values of callees) stays that of the first input -- for the code and the reference
                 args = list(args)
-                for i, (a, b) in enumerate(zip(args, args2)):
-                    if isinstance(a, np.ndarray) and isinstance(b, np.ndarray) and a.shape == b.shape and a.dtype == b.dtype:
-                        a[...] = b
-                    elif not (hasattr(a, "__dict__") and not isinstance(a, np.ndarray)):
-                        args[i] = b
-                with np.errstate(all="ignore"), patched_rng([vmix[m] for m in self.rng_inputs], unit=getattr(self, "rng_unit", False)):
-                    out = flat(self.select(fn(*args, **kwargs)))
-                n_hist += 1
-                want = expected(vmix)
-                if want is None:
-                    with np.errstate(all="ignore"):
-                        want = flat(self.run_native(cp_(vmix)))
-                d = self._cmp_outputs(out, want)
-                if d is not None:
-                    return {"violated": True, "function": self.qn, "history": "call 1 on the object with `first`; the same array objects refilled in place with `second`; call 2 on the same object",
-                            "input": {"first": jsonable_vals(v1), "second": jsonable_vals(vmix)}, "observed": d}
+                passed = {}
+                for i, a in enumerate(args):
+                    if isinstance(a, np.ndarray):
+                        for k in va:
+                            if va[k] is a and isinstance(v2.get(k), np.ndarray) and v2[k].shape == a.shape and v2[k].dtype == a.dtype and k not in self.rng_inputs:
+                                passed[i] = k
+                vmix = dict(cp_(v1))
+                for i, k in passed.items():
+                    vmix[k] = v2[k].copy()
+                    args[i][...] = v2[k]
+                try:
+                    if passed and self.sc.post_native is not None and set(passed.values()) != {k for k in v1 if isinstance(v1[k], np.ndarray)}:
+                        passed = {}  # some derived inputs live in the object: a partial refill would be inconsistent
+                    if passed and not np.all(self.sc.pre_ok_native(vmix)):
+                        passed = {}  # the mixed input is outside the contract: this object is not used further
+                except Exception:
+                    passed = {}
+                if passed:
+                    with np.errstate(all="ignore"), patched_rng([vmix[m] for m in self.rng_inputs], unit=getattr(self, "rng_unit", False)):
+                        out = flat(self.select(fn(*args, **kwargs)))
+                    n_hist += 1
+                    want = expected(vmix)
+                    if want is None:
+                        with np.errstate(all="ignore"):
+                            want = flat(self.run_native(cp_(vmix)))
+                    d = self._cmp_outputs(out, want)
+                    if d is not None:
+                        return {"violated": True, "function": self.qn, "history": "call 1 on the object with `first`; the same array objects refilled in place with `second`; call 2 on the same object",
+                                "input": {"first": jsonable_vals(v1), "second": jsonable_vals(vmix)}, "observed": d}
                 # (2) a second object, built after the first one was used
                 with np.errstate(all="ignore"):
                     out2 = flat(self.run_native(cp_(v2)))
